@@ -160,7 +160,7 @@ CHECKS = {
             "Theorems: content type = override, else extension default, else built-in table on the lower-cased extension; embedded image part name; the img elements in the output are exactly those of the images visited, in order, one converter call each "
             "(visit_images over the reading-order trace); END TO END (C17_end_to_end): for every source whose body is in the reader theorem's domain and whose style map in force has no `!` and no tag with img among its names, "
             "the img elements of the forest convert returns - after strip_empty and collapse - are exactly the converter applied to the images of the body XML in document order (reader half: C17_docx_images), then those of the referenced notes, "
-            "then the comments'; the hypothesis on `|` alternatives is necessary (C17_alternative_named_img_refuted); the converter's alt overrides the document's; base64 decodes back to the bytes. Oracle: (type, bytes, alt) per image computed from the package vs the img elements, for the default and three custom converters.",
+            "then the comments'; the hypothesis on `|` alternatives is necessary (C17_alternative_named_img_refuted); the LEAF from the XML and the package alone (C17_drawing_images: part, declared type, bytes, alt = description unless blank else title; failures exactly 53 / 54) and, with the default converter, each img = data URI of that part's bytes under that type (C17_html_imgs_are_package_parts, C17_data_uri_payload); the converter's alt overrides the document's; base64 decodes back to the bytes. Oracle: (type, bytes, alt) per image computed from the package vs the img elements, for the default and three custom converters.",
             BASE_NOTE + "Byte transport through zipfile and the stdlib base64 is runtime: compared, not proved.",
             "DESIGN.md §5 C17, §15"),
     "C18": ("proof",
